@@ -79,6 +79,22 @@ Theorem C01_source_inverses : forall a : area R, wf_area a ->
                (xmin a + (c + /2) * dxR a, ymax a - (r + /2) * dyR a)).
 Proof. exact gen01_inverses. Qed.
 Print Assumptions C01_source_inverses.
+(* source level, continued: AreaDefinition.__init__'s arithmetic followed by _generate_1d_proj_vectors' element recipe
+   (both regenerated from the source) is the canonical map of the property text ... *)
+Theorem C01_source_canonical : forall (x0 y0 x1 y1 : R) (w h c r : Z), (1 <= w)%Z -> (1 <= h)%Z ->
+  let '(psx, psy, ul, _, _) := gen01_init RO w h (x0, y0, x1, y1) in
+  gen01_proj_vector_elements RO (psx, psy) ul c r =
+  (x0 + (IZR c + /2) * ((x1 - x0) / IZR w), y1 - (IZR r + /2) * ((y1 - y0) / IZR h)).
+Proof. exact gen01_source_canonical. Qed.
+Print Assumptions C01_source_canonical.
+(* ... and the regenerated integer lookup (affine conversion, then the element-wise block of masked_ints.wrapper: mask,
+   clip, round, cast) is the lookup that C01_index_contains / C01_index_scalar_rejects speak about *)
+Theorem C01_source_index_lookup : forall (a : area R) (x y : R), wf_area a ->
+  let '(cf, rf) := gen01_array_coordinates_from_projection_coordinates RO a x y in
+  let '(cd, rd, cm, rm) := gen01_masked_ints RO a cf rf in
+  c01_index_array RO a x y = ((if cm then None else Some cd), (if rm then None else Some rd)).
+Proof. exact gen01_source_lookup. Qed.
+Print Assumptions C01_source_index_lookup.
 Example C01_wf_ex : wf_area (mk_area 0 0 4 2 4%Z 2%Z) /\ wf_area (mk_area (-3) 5 3 (-5) 6%Z 4%Z).
 Proof. unfold wf_area; cbn. repeat split; try lia; lra. Qed.
 
